@@ -7,6 +7,12 @@ import PortusModel.Lemmas.Accept2
 #print axioms Portus.Lang.Typing.wtSrc_accepted
 #print axioms Portus.Lang.Typing.richSrc_accepted
 #print axioms Portus.Lang.Typing.wellTyped_eq
+#print axioms Portus.Lang.Typing.wellTyped_mono
+#print axioms Portus.Lang.Typing.compile_value
+#print axioms Portus.Lang.Typing.nestedSrc_accepted
+#print axioms Portus.Lang.Typing.nestedLocalSrc_accepted
+#print axioms Portus.Lang.Typing.hazardSrc_accepted
+#print axioms Portus.Lang.Typing.finding_known_target_type
 #print axioms Portus.Lang.Typing.finding_bare_bool_condition
 #print axioms Portus.Lang.Typing.finding_guarded_target
 #print axioms Portus.C20.layout_same_image
